@@ -22,7 +22,12 @@ Inductive op : Type :=
 | Clear
 | Swap                            (* s.swap(t) *)
 | Extract                         (* flat_set only: move(s).extract() *)
-| Replace (ks : list A).          (* flat_set only: s.replace(Container(first, last)) *)
+| Replace (ks : list A)           (* flat_set only: s.replace(Container(first, last)) *)
+| AssignIter (ks : list A)        (* s = Set(first, last) with forward (not random-access) iterators: the
+                                     constructors' iterator-range overloads without the distance precondition
+                                     (static_set: `if constexpr (RandomAccessIterator)` not taken; flat_set:
+                                     flat_set(first, last, comp)) *)
+| CopyFrom.                       (* s = t  (copy assignment from the second set) *)
 
 Record st : Type := { cur : list A; oth : list A }.
 Definition init : st := {| cur := []; oth := [] |}.
